@@ -122,26 +122,26 @@ def varopt(facts):
             out.append(ob("varopt.query", "%s::operator*:anchor" % short(cls), "", "unrecognised", "operator* not found", ""))
             continue
         f = it[0]
-        ifs = [s for s in stmts_of(f["body"]) if s.get("k") == "If"]
+        # the weight handed out with the item: the second component of the returned pair, with the locals it is computed from
+        # replaced by their values (an if / else-if chain assigning a local and a nested ?: give the same expression)
+        from triggers import plainly_assigned_locals
+        pa = {d: v[0] for d, v in plainly_assigned_locals(f).items() if len(v) == 1}
+        rets = []
+        walk(f["body"], lambda n: rets.append(n) if n.get("k") == "Return" and n.get("e") is not None else None)
+        got = "?"
+        if len(rets) == 1:
+            r = strip_all(rets[0]["e"])
+            while r.get("k") in ("Construct", "Call") and len(r.get("args", [])) == 1:
+                r = strip_all(r["args"][0])
+            if r.get("k") in ("Construct", "Call") and len(r.get("args", [])) == 2:
+                got = C(txt(r["args"][1], pa))
         ok = False
-        if ifs:
-            x = ifs[0]
-            c = txt(x["c"]).replace(" ", "")
-            th = [_t(s) for s in stmts_of(x["t"])]
-            rest = []
-            y = x.get("e")
-            while y is not None:
-                if y.get("k") == "If":
-                    rest.append((txt(y["c"]).replace(" ", ""), [_t(s) for s in stmts_of(y["t"])]))
-                    y = y.get("e")
-                else:
-                    rest.append(("else", [_t(s) for s in stmts_of(y)]))
-                    y = None
+        if True:
             if extra:
-                ok = c == C("(idx_<sk_.h_)") and th == ["(wt=sk_.weights_[idx_])"] and rest == [(C("(idx_==(final_idx_-1))"), ["(wt=(sk_.total_wt_r_-cum_r_weight_))"]), ("else", ["(wt=r_item_wt_)"])]
+                ok = got == C("((idx_<sk_.h_)?sk_.weights_[idx_]:((idx_==(final_idx_-1))?(sk_.total_wt_r_-cum_r_weight_):r_item_wt_))")
             else:
-                ok = c == C("(idx_<sk_.h_)") and th == ["(wt=sk_.weights_[idx_])"] and rest == [("else", ["(wt=r_item_wt_)"])]
-        out.append(ob("varopt.query", "%s::operator*:weights" % short(cls), f["pat"], "discharged" if ok else "violated", "H items report their stored weight, R items the reservoir weight%s" % (" (the last R item takes the remainder so that the weights sum to total_wt_r_)" if extra else "") if ok else "iterator weight selection changed: %s" % ([_t(s) for s in stmts_of(f["body"])]), f["qname"]))
+                ok = got == C("((idx_<sk_.h_)?sk_.weights_[idx_]:r_item_wt_)")
+        out.append(ob("varopt.query", "%s::operator*:weights" % short(cls), f["pat"], "discharged" if ok else "violated", "H items report their stored weight, R items the reservoir weight%s" % (" (the last R item takes the remainder so that the weights sum to total_wt_r_)" if extra else "") if ok else "iterator weight selection changed: the weight returned with the item is `%s`" % got, f["qname"]))
     # union accounting
     U = "datasketches::var_opt_union"
     for f in [g for g in fs.values() if g.get("rect") == U and g["name"] == "merge_items" and g.get("body") is not None]:
